@@ -6,6 +6,10 @@ CHECKS = {
    text="Every cell of the finite cross product (operator or conversion x operand kind(s) x operand forms x result context) is executed with its whole boundary-value set by the real interpreter (child processes, tag verif) and by the gc-built binary of the same source; a monitor compares the printed result / panic flag of every evaluation. thorough enumerates the whole universe (about 13 000 cells, 2 M evaluations), quick a seed-selected half plus every cell that ever failed. Held means: no divergence on the executions observed.",
    note="Trusted: the gc toolchain as reference, fmt printing (identical code on both sides). Out-of-range float->int conversions are excluded (implementation-defined). Known findings C02-F1, C02-F2 are listed in known_findings.jsonl.",
    design="2/C02"),
+ "C17": dict(technique="runtime monitor with reference model: generated file names/constraint headers loaded by the real interpreter from a MapFS, symbol visibility compared with go/build.Context.MatchFile",
+   text="Generated packages (enumerated file-name universe: every combination of known/unknown OS, architecture and other words in the last three name positions; 60 000 constraint headers from a grammar of boolean expressions in //go:build, // +build, both, disagreeing, in 8 placements; yaegi:tags histories) are loaded by the real interpreter in import mode and in EvalTest mode; for every file the monitor observes whether its marker symbol is visible and compares with go/build.Context.MatchFile for the same name, content, GOOS/GOARCH, release and tags. thorough covers the whole header universe, quick a 6 000-header window chosen by the seed plus all names.",
+   note="Trusted: go/build of the installed toolchain as the reference model. Compiler/cgo tags are not generated. Malformed //go:build lines (where the toolchain reports an error instead of selecting) are not generated. Known finding C17-F1 (+build in the package doc comment).",
+   design="2/C17"),
 }
 NOT_YET = {}
 def main():
